@@ -23,7 +23,7 @@ pub fn prop() -> Prop {
 }
 
 /// (JSON text or None for absent)
-const VALS: [Option<&str>; 34] = [
+const VALS: [Option<&str>; 37] = [
     None,
     Some("null"),
     Some("true"),
@@ -58,9 +58,12 @@ const VALS: [Option<&str>; 34] = [
     Some("{\"k\u{1f603}\":\"\u{20ac}\"}"),
     Some("\"p;q;\""),
     Some("[\";\",{\"k;\":1}]"),
+    Some("\"=SUM(A1:A9)\""),
+    Some("\"@alice\""),
+    Some("\"+1-2\""),
 ];
 
-const NAMES: [[&str; 3]; 4] = [["a", "b", "c"], ["first name", "x,y", "q\"r"], ["é", "ñame", "日本"], ["v", "v", "w"]];
+const NAMES: [[&str; 3]; 5] = [["a", "b", "c"], ["first name", "x,y", "q\"r"], ["é", "ñame", "日本"], ["v", "v", "w"], ["@id", "-x", "+y"]];
 
 fn record(idx: &[usize]) -> String {
     let mut s = String::from("{");
@@ -152,7 +155,7 @@ fn field_ok(f: &csv::Field, v: &Option<V>) -> Result<(), String> {
 }
 
 fn nontrivial_val(i: usize) -> bool {
-    matches!(i, 0 | 10 | 13..=18 | 21..=23 | 25..=28 | 30..=33)
+    matches!(i, 0 | 10 | 13..=18 | 21..=23 | 25..=28 | 30..=36)
 }
 
 fn csv_part(ctx: &mut Ctx) {
@@ -372,7 +375,7 @@ impl TextOpts {
 }
 
 /// values whose text spelling is beyond doubt (no 1e300, no control characters inside nested strings)
-const TEXT_VALS: [usize; 28] = [0, 1, 2, 3, 4, 5, 6, 7, 8, 9, 10, 11, 12, 13, 14, 15, 16, 18, 19, 21, 24, 25, 26, 27, 30, 31, 32, 33];
+const TEXT_VALS: [usize; 30] = [0, 1, 2, 3, 4, 5, 6, 7, 8, 9, 10, 11, 12, 13, 14, 15, 16, 18, 19, 21, 24, 25, 26, 27, 30, 31, 32, 33, 34, 35];
 
 fn text_part(ctx: &mut Ctx) {
     let kmax = ctx.tier.pick(3usize, 9);
